@@ -191,15 +191,67 @@ type connScript struct {
 	// for this long (or until it is cut) and logs what arrives there (RawBy) -- a client that refused the certificate
 	// holds that connection open for a while, and nothing but its </stream:stream> may be written on it.
 	LingerMs int `json:"linger_ms,omitempty"`
+	// TLSCut (C13): after <proceed/> the server starts the handshake and goes away in the middle of it, in an orderly
+	// way (FIN): "none" before it has answered the ClientHello, "header" inside the header of its first record,
+	// "payload" inside that record's payload, "boundary" right after that record. "": the handshake runs.
+	TLSCut string `json:"tls_cut,omitempty"`
+	// Tickets (C04): "12" / "13": the server issues session tickets under a key shared by all its connections (so that
+	// a client with a ClientSessionCache can RESUME a session of an earlier connection) and speaks at most TLS 1.2
+	// (the ticket is part of the handshake) / whatever is negotiated (TLS 1.3: tickets follow the handshake). "": as before.
+	Tickets string `json:"tickets,omitempty"`
+}
+
+// cutConn is what the TLS layer of such a server writes to: the first bytes go through, then the connection is closed.
+type cutConn struct {
+	net.Conn
+	mode    string
+	limit   int // -1: not known yet (it depends on the length of the first record)
+	written int
+}
+
+func (c *cutConn) Write(p []byte) (int, error) {
+	if c.limit < 0 {
+		rec := len(p)
+		if len(p) >= 5 {
+			rec = 5 + int(p[3])<<8 + int(p[4])
+		}
+		switch c.mode {
+		case "header":
+			c.limit = 3
+		case "payload":
+			c.limit = 5 + (rec-5)/2
+		case "boundary":
+			c.limit = rec
+		default:
+			c.limit = 0
+		}
+	}
+	n := c.limit - c.written
+	if n > len(p) {
+		n = len(p)
+	}
+	if n > 0 {
+		m, err := c.Conn.Write(p[:n])
+		c.written += m
+		if err != nil {
+			return m, err
+		}
+	}
+	if c.written >= c.limit {
+		c.Conn.Close()
+		return n, fmt.Errorf("scripted cut of the connection after %d bytes of the handshake (%s)", c.written, c.mode)
+	}
+	return n, nil
 }
 
 type connLog struct {
 	Elems    []cElem `json:"elems"`
-	TLS      string  `json:"tls,omitempty"` // "", "ok", "handshake-error"
+	TLS      string  `json:"tls,omitempty"`     // "", "ok", "handshake-error"
+	Resumed  bool    `json:"resumed,omitempty"` // the TLS session of this connection was resumed from a ticket (C04)
 	TLSErr   string  `json:"tls_err,omitempty"` // handshake-error: what the server's side of the handshake reported
-	ClearBy  []byte  `json:"-"`             // every byte received outside TLS
-	RawBy    []byte  `json:"-"`             // after <proceed/>: every byte read from the socket underneath TLS (handshake included)
-	SecureBy []byte  `json:"-"`             // after <proceed/>: every byte of the decrypted stream
+	ClearBy  []byte  `json:"-"`                 // every byte received outside TLS
+	RawBy    []byte  `json:"-"`                 // after <proceed/>: every byte read from the socket underneath TLS (handshake included)
+	SecureBy []byte  `json:"-"`                 // after <proceed/>: every byte of the decrypted stream
 	Ended    string  `json:"ended"`
 }
 
@@ -523,6 +575,10 @@ func (s *scriptedServer) serve(conn net.Conn, sc connScript, lg *connLog) {
 					tc.SetLinger(0)
 				}
 				return
+			case "fin":
+				// (C13) the server hangs up in an orderly way, without waiting for anything the client may still say
+				end("server-closed")
+				return
 			case "wait":
 				time.Sleep(time.Duration(it.N) * time.Millisecond)
 				continue
@@ -540,7 +596,17 @@ func (s *scriptedServer) serve(conn net.Conn, sc connScript, lg *connLog) {
 			}
 			if it.T == "proceed" {
 				cfg := serverTLSConfig(sc.Cert)
-				tc := tls.Server(sinkConn{conn, &lg.RawBy, &s.mu}, cfg)
+				if sc.Tickets != "" {
+					cfg.SetSessionTicketKeys([][32]byte{ticketKey})
+					if sc.Tickets == "12" {
+						cfg.MaxVersion = tls.VersionTLS12
+					}
+				}
+				var under net.Conn = sinkConn{conn, &lg.RawBy, &s.mu}
+				if sc.TLSCut != "" {
+					under = &cutConn{Conn: under, mode: sc.TLSCut, limit: -1}
+				}
+				tc := tls.Server(under, cfg)
 				// generous: a client that is still working on the handshake on a loaded machine is not to be timed out
 				tc.SetDeadline(time.Now().Add(30 * time.Second))
 				if err := tc.Handshake(); err != nil {
@@ -558,6 +624,7 @@ func (s *scriptedServer) serve(conn net.Conn, sc connScript, lg *connLog) {
 				tc.SetDeadline(time.Time{})
 				s.mu.Lock()
 				lg.TLS = "ok"
+				lg.Resumed = tc.ConnectionState().DidResume
 				if s.secured == nil {
 					s.secured = map[net.Conn]*tls.Conn{}
 				}
@@ -622,7 +689,7 @@ func (s *scriptedServer) snapshot() []connLog {
 	defer s.mu.Unlock()
 	out := make([]connLog, len(s.logs))
 	for i, l := range s.logs {
-		out[i] = connLog{Elems: append([]cElem{}, l.Elems...), TLS: l.TLS, TLSErr: l.TLSErr, Ended: l.Ended, ClearBy: append([]byte{}, l.ClearBy...),
+		out[i] = connLog{Elems: append([]cElem{}, l.Elems...), TLS: l.TLS, TLSErr: l.TLSErr, Resumed: l.Resumed, Ended: l.Ended, ClearBy: append([]byte{}, l.ClearBy...),
 			RawBy: append([]byte{}, l.RawBy...), SecureBy: append([]byte{}, l.SecureBy...)}
 	}
 	return out
@@ -673,8 +740,12 @@ func initCerts() {
 		mk("wronghost", ca, caKey, []string{"other.example"}, now.Add(-time.Hour), now.Add(24*time.Hour), 11)
 		mk("untrusted", badCA, badKey, []string{srvDomain}, now.Add(-time.Hour), now.Add(24*time.Hour), 12)
 		mk("expired", ca, caKey, []string{srvDomain}, now.Add(-48*time.Hour), now.Add(-24*time.Hour), 13)
+		mk("both", ca, caKey, []string{srvDomain, "other.example"}, now.Add(-time.Hour), now.Add(24*time.Hour), 14) // C04: valid for the domain AND for the ServerName of the scenarios
 	})
 }
+
+// ticketKey: the session ticket key of the servers that let clients resume (connScript.Tickets)
+var ticketKey = [32]byte{'x', 'v', '-', 't', 'i', 'c', 'k', 'e', 't'}
 
 func serverTLSConfig(kind string) *tls.Config {
 	initCerts()
